@@ -1,18 +1,17 @@
 \* C06, exhaustive: forks above the finalized block (any content), detector, restart at any step
 CONSTANTS
-  N = 3
-  Chunks = {2}
+  N = 4
+  Chunks = {1,2}
   TipTags = {"latest"}
   BufCap = 1
-  MaxForks = 2
+  MaxForks = 1
   MaxFails = 0
   MaxPFails = 0
-  MaxRestarts = 0
+  MaxRestarts = 1
   Detector = TRUE
   RetryLimit = 5
-  AtomicRemove = FALSE
+  AtomicRemove = TRUE
   Contents = {0,1}
-  FinLag = 0
   NoIdle = FALSE
   SimDepth = 0
 INIT Init
